@@ -1,7 +1,7 @@
 """C14 -- ADD_ONION carries exactly the requested service; key custody follows the request.
 
 Real code: onion._add_ephemeral_service, _validate_ports/_validate_ports_low_level/_validate_single_port_string,
-EphemeralOnionService.create/remove, EphemeralAuthenticatedOnionService.create/remove, on a TorConfig bootstrapped
+EphemeralOnionService.create/remove, EphemeralAuthenticatedOnionService.create/remove, Tor.create_onion_service, on a TorConfig bootstrapped
 against SimTor through the real protocol.  Symbolic: version, key kind and the key blob's characters, detach /
 single-hop / discard, basic-auth clients, the port mappings and their port numbers.
 Oracle: an independent ADD_ONION argument parser (control-spec 3.27) over the line that reached Tor.
@@ -60,7 +60,7 @@ def _blob_ok(c):
     return (48 <= o <= 57) or (97 <= o <= 122) or c == ':' or c == '=' or c == '+' or c == '/' or c == '\r' or c == '\n'
 
 
-def _product(version, keykind, blob, detach, single_hop, nclients, tok1, nports, form1, form2, pa, pb, same_virt=False):
+def _product(version, keykind, blob, detach, single_hop, nclients, tok1, nports, form1, form2, pa, pb, same_virt=False, via_tor=False):
     with api.no_tracing():
         p, t, tor = make_world(dict(INITIAL), True, {})
         p._set_valid_events('CONF_CHANGED HS_DESC CIRC STREAM')
@@ -134,6 +134,12 @@ def _product(version, keykind, blob, detach, single_hop, nclients, tok1, nports,
         if nclients >= 0:
             dd = EphemeralAuthenticatedOnionService.create(object(), cfg, ports, detach=detach, private_key=key, version=version,
                                                            auth=AuthBasic(clients), single_hop=single_hop)
+        elif via_tor:
+            from txtorcon.controller import Tor
+            import txtorcon.controller as controller_mod
+            controller_mod.available_tcp_port = onion_mod.available_tcp_port
+            dd = Tor(object(), p, _tor_config=cfg).create_onion_service(ports, private_key=key, version=version,
+                                                                      single_hop=single_hop, detach=detach)
         else:
             dd = EphemeralOnionService.create(object(), cfg, ports, detach=detach, private_key=key, version=version, single_hop=single_hop)
         o = fakes.Outcome(dd)
@@ -222,7 +228,7 @@ def _blob(n, b1, b2, b3):
 
 @cond(quick=dict(parts=_PARTS, pins={'maxblob': 2}, budget=150), thorough=dict(parts=_PARTS, pins={'maxblob': 3}, budget=900))
 def c14_product(version: int, keykind: int, nclients: int, nb: int, b1: int, b2: int, b3: int, detach: bool, single_hop: bool, tok1: bool,
-                nports: int, form1: int, form2: int, pa: int, same_virt: bool, maxblob: int) -> str:
+                nports: int, form1: int, form2: int, pa: int, same_virt: bool, via_tor: bool, maxblob: int) -> str:
     """one cell class of the option product per partition (version x key kind x auth clients); the rest chosen by the solver:
     key blob over the alphabet {letter, digit, : = + / CR LF}, detach, single-hop, client token, 1-2 port mappings of 4 forms,
     boundary public ports"""
@@ -245,6 +251,8 @@ def c14_product(version: int, keykind: int, nclients: int, nb: int, b1: int, b2:
     if form2 == 0:
         assume(not same_virt)     # (an int mapping gets the same stubbed local port: would be a true duplicate)
     pa = api.pick_from(pa, (1, 65535))
+    if nclients >= 0 or keykind >= 2:
+        assume(not via_tor)     # Tor.create_onion_service: the unauthenticated entry point, tried with generated / discarded keys
     with api.no_tracing():     # every choice is concrete by now
         return _product(version, keykind, blob, True if detach else False, True if single_hop else False, nclients, True if tok1 else False,
-                        nports, form1, form2, pa, 80, True if same_virt else False)
+                        nports, form1, form2, pa, 80, True if same_virt else False, True if via_tor else False)
